@@ -3,7 +3,8 @@ import BigDec.Model.Float
 /-! Executable model of the main path of `make_inv_guess` (src/arithmetic/inverse.rs):
     `LN_2 * exp2(-bit_count)` in f64 (through the rounding primitive; `exp2` of an integer is the exact
     power of two, subnormals included), converted exactly to a decimal, scale lowered by `scale`.
-    The back-up path (`bit_count > 1074`: libm `exp10`, `f32`) is not modelled. -/
+    The back-up path (`bit_count > 1074`) is modelled up to its float kernel: the f32 value
+    `(LN_2 * exp10(-frac)) as f32` is an input of the model (libm `exp10` is not modelled). -/
 namespace BigDec
 open Generated
 
@@ -22,5 +23,18 @@ def invGuessMain (b : Nat) (scale : Int) : Option Dec :=
   if b ≤ 1074 ∧ invGuessF64 b ≠ 0 ∧ invGuessF64 b ≠ F64.inf then
     (ofF64 (invGuessF64 b)).map (fun d => ⟨d.int, d.scale - scale⟩)
   else none
+
+/-- `bit_count as f64 * LOG10_2` -/
+def backupApprox (b : Nat) : Nat := F64.mul (F64.ofNat b) F64.log10_2
+
+/-- `approx_scale.trunc()` and the fractional part `approx_scale - approx_scale_int` as (numerator, denominator) -/
+def backupSplit (b : Nat) : Nat × Nat × Nat :=
+  let v := F64.val (backupApprox b)
+  (v.1 / v.2, v.1 % v.2, v.2)
+
+/-- the back-up guess, given the f32 bits of `(LN_2 * exp10(-frac)) as f32`:
+    `from_f32` (exact), `scale += approx_scale_int`, `scale -= scale` -/
+def invGuessBackup (b : Nat) (scale : Int) (v32 : Nat) : Option Dec :=
+  (ofF32 v32).map (fun d => ⟨d.int, d.scale + ((backupSplit b).1 : Int) - scale⟩)
 
 end BigDec
